@@ -154,6 +154,9 @@ func run(c *mon.Ctx) {
 	c.Floor("predicate.required_true", 5000)
 	c.Floor("readpmt.split_on_section_boundary", 20)
 	c.Floor("readpmt.first_packet_holds_only_pointer_filler", 20)
+	c.Floor("readpmt.earlier_unit_on_pmt_pid/other-section-unit", 500)
+	c.Floor("readpmt.earlier_unit_on_pmt_pid/truncated-larger-pmt", 500)
+	c.Floor("decode_again_after_removal", 2000)
 
 	c.Stream("pmt", c.N(20000, 8000000), func(i int, r *gen.Rand) {
 		nStreams := -1
@@ -289,6 +292,33 @@ func run(c *mon.Ctx) {
 		}
 		var st bytes.Buffer
 		inter := r.Intn(3)
+		earlier := ""
+		if r.Chance(5) {
+			// an earlier payload unit on the PMT PID that does not hold a PMT with streams: another table's
+			// section in a unit of its own, or the head of a larger PMT whose remaining packets were lost
+			var unit []byte
+			if r.Bool() {
+				earlier = "other-section-unit"
+				unit = append([]byte{0}, ref.OtherSection(r.PickByte([]byte{0x00, 0x03, 0x42, 0xc8, 0xfc}), r.Bytes(r.PickInt([]int{10, 100, 300, 700, 1000, r.Intn(1000)})))...)
+			} else {
+				earlier = "truncated-larger-pmt"
+				big := ref.GenPMT(r, 30+r.Intn(20))
+				unit = append([]byte{0}, big.Section()...)
+			}
+			ek, _ := ref.Packetise(pid, r.Intn(16), unit, ref.RandChunks(r, 1+len(unit)/60), r.Bool())
+			if earlier == "truncated-larger-pmt" {
+				// whole packets are lost, from somewhere after the first one to the end of the unit
+				if len(ek) < 2 {
+					ek = nil
+				} else {
+					ek = ek[:1+r.Intn(len(ek)-1)]
+				}
+			}
+			for _, pk := range ek {
+				st.Write(pk[:])
+			}
+			c.Count("readpmt.earlier_unit_on_pmt_pid/" + earlier)
+		}
 		for _, pk := range pkts {
 			for q := r.Intn(inter + 1); q > 0; q-- {
 				opid := (pid + 1 + r.Intn(60)) & 0x1fff
@@ -313,7 +343,9 @@ func run(c *mon.Ctx) {
 		}
 		if err != nil || m2 == nil {
 			sig := "ReadPMT:error"
-			if splitOnBoundary {
+			if earlier != "" {
+				sig = "ReadPMT:error/after-" + earlier
+			} else if splitOnBoundary {
 				sig = "ReadPMT:error/packet-boundary-on-section-boundary"
 			} else if len(starts) > 1 && starts[1] <= firstStart+2 {
 				sig = "ReadPMT:error/first-packet-ends-before-section-header-complete"
@@ -337,6 +369,28 @@ func run(c *mon.Ctx) {
 			checkPMT(c, "NewPMT-object-after-later-decodes", m, &p, w("payload"))
 			if m2 != nil && err == nil {
 				checkPMT(c, "ReadPMT-object-after-later-decodes", m2, &p, ws)
+			}
+		}
+		// ---- decoding is a function of the payload: remove streams from one result, decode the same bytes again
+		if i%3 == 0 {
+			if m3, err := psi.NewPMT(append([]byte{}, snap...)); err == nil && m3 != nil {
+				var drop []int
+				for _, sp := range p.Streams {
+					if r.Bool() {
+						drop = append(drop, sp.PID)
+					}
+				}
+				m3.RemoveElementaryStreams(drop)
+				c.Count("decode_again_after_removal")
+				if m4, err := psi.NewPMT(append([]byte{}, snap...)); err != nil || m4 == nil {
+					c.Fail("NewPMT-again:error", fmt.Sprintf("the same payload was rejected when parsed again: %v", err), w("payload")(""))
+				} else {
+					checkPMT(c, "NewPMT-again-after-removing-streams-from-an-earlier-result", m4, &p, w("payload"))
+				}
+				if m5, err := psi.ReadPMT(bytes.NewReader(in), pid); err == nil && m5 != nil {
+					checkPMT(c, "ReadPMT-again-after-removing-streams-from-an-earlier-result", m5, &p, ws)
+				}
+				checkPMT(c, "NewPMT-object-after-removal-on-another-object", m, &p, w("payload"))
 			}
 		}
 		// ---- class
